@@ -155,7 +155,7 @@ func mkActor(seed uint64, idx int, name string) *Actor {
 // NewWorld builds a fresh chain from genesis for cfg with nActors funded with ucmdx only. Scenario set-up follows.
 func NewWorld(cfg Config, nActors int) *World {
 	w := &World{Cfg: cfg, Unsolicited: map[string]sdk.Coins{}, Stats: NewStats(), S: map[string]interface{}{}, X: map[string]interface{}{}}
-	w.DB = dbm.NewMemDB()
+	w.DB = newSimDB()
 	w.Enc = chain.MakeEncodingConfig()
 	w.TxCfg = w.Enc.TxConfig
 	w.App = newApp(w.DB, cfg.ChainID)
